@@ -7,10 +7,13 @@ pub broadcast axiom fn axiom_disp_string(s: &String) ensures #[trigger] disp_spe
 pub broadcast axiom fn axiom_disp_str(s: &str) ensures #[trigger] disp_spec::<str>(s) == s@;
 pub broadcast axiom fn axiom_disp_refstr(s: &&str) ensures #[trigger] disp_spec::<&str>(s) == (*s)@;
 pub broadcast axiom fn axiom_disp_refstring(s: &&String) ensures #[trigger] disp_spec::<&String>(s) == (*s)@;
-pub broadcast group group_disp { axiom_disp_string, axiom_disp_str, axiom_disp_refstr, axiom_disp_refstring }
 
 #[verifier::external_body]
 pub fn vdisp<T: std::fmt::Display + ?Sized>(t: &T) -> (r: String) ensures r@ == disp_spec::<T>(t) { t.to_string() }
+
+// String::to_string copies the text (vstd leaves the Display-based to_string of String unspecified)
+pub broadcast axiom fn axiom_string_to_string(s: &String, r: String)
+    ensures #[trigger] vstd::string::to_string_from_display_ensures::<String>(s, r) ==> r@ == s@;
 
 #[verifier::external_body]
 pub fn vcat1(a: &str) -> (r: String) ensures r@ == a@ { a.to_string() }
@@ -35,5 +38,6 @@ pub fn vcat9(a: &str, b: &str, c: &str, d: &str, e: &str, f: &str, g: &str, h: &
 pub fn vcat10(a: &str, b: &str, c: &str, d: &str, e: &str, f: &str, g: &str, h: &str, i: &str, j: &str) -> (r: String) ensures r@ == a@ + b@ + c@ + d@ + e@ + f@ + g@ + h@ + i@ + j@ { [a, b, c, d, e, f, g, h, i, j].concat() }
 #[verifier::external_body]
 pub fn vcat11(a: &str, b: &str, c: &str, d: &str, e: &str, f: &str, g: &str, h: &str, i: &str, j: &str, k: &str) -> (r: String) ensures r@ == a@ + b@ + c@ + d@ + e@ + f@ + g@ + h@ + i@ + j@ + k@ { [a, b, c, d, e, f, g, h, i, j, k].concat() }
+pub broadcast group group_disp { axiom_string_to_string, axiom_disp_string, axiom_disp_str, axiom_disp_refstr, axiom_disp_refstring }
 } // verus!
 } // mod vfmt
